@@ -39,6 +39,11 @@ package main
 //         (`val,name=item item…,flag`, an item a word or a bracketed group that may contain blanks / commas, see scanStructTag)
 //         the recorded value and arguments equal that structure, read off the tag text by the harness itself
 //         (scanParseStruct) — not by the library's parser (signature scan-custom-args).
+//   (vi)  the VALUE the recorder was handed is the tag's value AS WRITTEN: the text before the first comma, byte for byte,
+//         leading and trailing blanks / tabs included (a separator `" | "`, a value of blanks only), read off the tag text
+//         by the harness (scanValueAsWritten; texts whose value part holds a bracket are left to (v)) — signature
+//         scan-custom-value.  About two generated shapes in five carry such values (scanBlankPass), as do the static
+//         types ScanStatic21/22 and three corpus shapes; `value:" lit"`-style literals are among the plain forms of (iv).
 // "unit" = a leaf field, or a struct field the scanner does not descend into.
 //
 // Field NAMES may repeat across different holders (sibling mix-ins declaring the same name, diamonds `Left{Base}`
@@ -919,6 +924,20 @@ func scanOracleSingle(r *scanResult) string {
 			return fmt.Sprintf("FAIL scan-custom %s got %q %s want %q %s", s.path, s.tagStr, showArgsMap(s.args), w.tagStr, showArgsMap(w.args))
 		}
 	}
+	// (vi) the value as written (blanks and tabs around it included)
+	written := map[string]string{}
+	for _, u := range r.units {
+		if tv, ok := reflect.StructTag(u.n.tagText()).Lookup(scanCustomTag); ok && scanExported(u.n.name) {
+			written[u.path] = tv
+		}
+	}
+	for _, s := range r.rec.seen {
+		if tv, ok := written[s.path]; ok {
+			if val, ok := scanValueAsWritten(tv); ok && s.tagStr != val {
+				return fmt.Sprintf("FAIL scan-custom-value %s tag %s:%q: processor got value %q, the tag says value %q", s.path, scanCustomTag, tv, s.tagStr, val)
+			}
+		}
+	}
 	// (v) structured custom tags: the processor was handed the value and the arguments the tag text says
 	structured := map[string]scanStructTag{}
 	for _, u := range r.units {
@@ -939,6 +958,89 @@ func scanOracleSingle(r *scanResult) string {
 		}
 	}
 	return ""
+}
+
+/* ---------- the value of a tag as written ---------- */
+
+// scanValueAsWritten: the value part of a tag text = everything before the first comma (the whole text when there is
+// none), byte for byte.  ok=false when that part holds a bracket (the grammar keeps bracketed groups together, so the
+// first comma may then be inside the value): such texts are left to the structured reader.
+func scanValueAsWritten(text string) (string, bool) {
+	val := text
+	if i := strings.IndexByte(text, ','); i >= 0 {
+		val = text[:i]
+	}
+	if strings.ContainsAny(val, "{[()]}") {
+		return "", false
+	}
+	return val, true
+}
+
+func scanBlankEdge(v string) bool {
+	return v != "" && (strings.IndexByte(" \t", v[0]) >= 0 || strings.IndexByte(" \t", v[len(v)-1]) >= 0)
+}
+
+var scanPads = [][2]string{{" ", ""}, {"", " "}, {" ", " "}, {"\t", ""}, {"", "\t"}, {"  ", "  "}, {"\t", " "}}
+
+// literals of `value` on a string field whose padded forms are among the plain forms of oracle (iv)
+var scanPadBases = map[string]string{"lit": "lit", "${s.k1}": "alpha", "${s.zz:dflt}": "dflt"}
+
+func init() {
+	for base, res := range scanPadBases {
+		for _, p := range scanPads {
+			scanPlain["s|value|"+p[0]+base+p[1]] = "s:" + hx.Hex(p[0]+res+p[1])
+		}
+	}
+	for _, lit := range []string{" ", "  ", "\t", " \t ", "-> ", " <-", " a b "} {
+		scanPlain["s|value|"+lit] = "s:" + hx.Hex(lit)
+	}
+}
+
+// scanBlankPass (sixth round): white space at the edges of tag VALUES.  Drawn from a PRNG seeded by the shape itself
+// (the shapes the generator draws are the same as without this pass): two custom tags in five get a value that begins
+// and / or ends with blanks / tabs, consists of blanks only, or is a separator like " | " (arguments untouched); one
+// string `value` literal in three is padded the same way.  Applies to every node of the shape, so the padded tags sit
+// directly on the component and inside embedded structs of every depth, in every re-nesting.
+func scanBlankPass(kids []*scanNode) {
+	h := fnv.New64a()
+	h.Write([]byte(scanEncode("G", kids)))
+	r := hx.NewRng(h.Sum64())
+	var walk func(kids []*scanNode)
+	walk = func(kids []*scanNode) {
+		for _, n := range kids {
+			for i, kv := range n.tags {
+				val, rest := kv.v, ""
+				if j := strings.IndexByte(kv.v, ','); j >= 0 {
+					val, rest = kv.v[:j], kv.v[j:]
+				}
+				if strings.ContainsAny(val, "{[()]}") {
+					continue
+				}
+				switch {
+				case kv.k == scanCustomTag && r.P(2, 5):
+					switch {
+					case val == "" || r.P(1, 6):
+						val = []string{" ", "  ", "\t", " \t", " | ", " - ", " . "}[r.Intn(7)]
+					default:
+						p := scanPads[r.Intn(len(scanPads))]
+						val = p[0] + val + p[1]
+					}
+					n.tags[i].v = val + rest
+				case kv.k == "value" && n.ty == "s" && !n.isStruct && r.P(1, 2):
+					if _, ok := scanPadBases[val]; ok {
+						p := scanPads[r.Intn(len(scanPads))]
+						n.tags[i].v = p[0] + val + p[1] + rest
+					} else if val == "lit" || r.P(1, 8) {
+						n.tags[i].v = []string{" ", "  ", "-> ", " <-", " a b "}[r.Intn(5)] + rest
+					}
+				}
+			}
+			if n.isStruct {
+				walk(n.kids)
+			}
+		}
+	}
+	walk(kids)
 }
 
 /* ---------- structured custom tags ---------- */
@@ -1073,7 +1175,8 @@ func scanParseStruct(text string) (scanStructTag, bool) {
 	}
 	t.val = parts[0]
 	for i := 0; i < len(t.val); i++ {
-		if !scanWordByte(t.val[i], false) {
+		// blanks and tabs are part of the value as written (sixth round)
+		if !scanWordByte(t.val[i], false) && t.val[i] != ' ' && t.val[i] != '\t' {
 			return t, false
 		}
 	}
@@ -1228,6 +1331,32 @@ func scanLabels(kids []*scanNode, r *scanResult, extra ...string) []string {
 				}
 			}
 		}
+	}
+	blankVal, blankLit := false, false
+	for _, u := range r.units {
+		if !scanExported(u.n.name) {
+			continue
+		}
+		st := reflect.StructTag(u.n.tagText())
+		if tv, ok := st.Lookup(scanCustomTag); ok {
+			if v, ok := scanValueAsWritten(tv); ok && scanBlankEdge(v) {
+				blankVal = true
+			}
+		}
+		if tv, ok := st.Lookup("value"); ok && u.n.ty == "s" {
+			if v, ok := scanValueAsWritten(tv); ok && scanBlankEdge(v) {
+				blankLit = true
+			}
+		}
+	}
+	if blankVal {
+		tags = append(tags, "custom-blank-value")
+		if d > 0 {
+			tags = append(tags, "custom-blank-value-embedded")
+		}
+	}
+	if blankLit {
+		tags = append(tags, "value-blank-literal")
 	}
 	if structured {
 		tags = append(tags, "custom-structured")
@@ -1551,7 +1680,38 @@ func (*ScanSoloFirst) Solo()  {}
 func (*ScanSoloSecond) Solo() {}
 func (*ScanSoloDeep) Solo()   {}
 
-var scanStaticFlat = map[int]any{0: ScanStatic0Flat{}, 4: ScanStatic4Flat{}, 5: ScanStatic5Flat{},
+// white space at the edges of tag values (sixth round): separators and padding handed to a user tag processor, literals of
+// blanks for the built-in `value` tag — directly on the component (the flat twin) and one / two embedded levels down
+type ScanSepBase struct {
+	Gap string `mytag:" "`
+	Bar string `mytag:" | ,style=wide"`
+	Ind string `value:"  "`
+}
+type ScanSepMid struct {
+	ScanSepBase
+	Dash  string `mytag:" - "`
+	Arrow string `value:"-> "`
+}
+type ScanStatic21 struct {
+	Label string
+	ScanSepMid
+	Tab  string `mytag:"\tv\t,note=(a b) c"`
+	Lead string `value:" ${s.k1}"`
+	Only int    `mytag:"   ,k"`
+}
+type ScanStatic21Flat struct {
+	Label string
+	Gap   string `mytag:" "`
+	Bar   string `mytag:" | ,style=wide"`
+	Ind   string `value:"  "`
+	Dash  string `mytag:" - "`
+	Arrow string `value:"-> "`
+	Tab   string `mytag:"\tv\t,note=(a b) c"`
+	Lead  string `value:" ${s.k1}"`
+	Only  int    `mytag:"   ,k"`
+}
+
+var scanStaticFlat = map[int]any{21: ScanStatic21Flat{},0: ScanStatic0Flat{}, 4: ScanStatic4Flat{}, 5: ScanStatic5Flat{},
 	9: ScanHubFlat2{}, 10: ScanHubFlat1{}, 11: ScanHubFlat1{}, 12: ScanHubFlat1{}, 13: ScanHubFlat1{}, 14: ScanHubFlat2{}, 15: ScanHubFlat3{},
 	18: ScanSoloFlat2{}, 19: ScanSoloFlat1{}, 20: ScanSoloFlat1{}}
 
@@ -1559,7 +1719,8 @@ var scanStatics = []any{ScanStatic0{}, ScanStatic1{}, ScanStatic2{}, ScanStatic3
 	/* 6 */ ScanHubFlat1{}, ScanHubFlat2{}, ScanHubFlat3{},
 	/* 9 */ ScanHubFirst{}, ScanHubSecond{}, ScanHubAfterEmbed{}, ScanHubDeep{}, ScanHubDeep3{}, ScanHubFirstDeep{}, ScanHubMid{},
 	/* 16 */ ScanSoloFlat1{}, ScanSoloFlat2{},
-	/* 18 */ ScanSoloFirst{}, ScanSoloSecond{}, ScanSoloDeep{}}
+	/* 18 */ ScanSoloFirst{}, ScanSoloSecond{}, ScanSoloDeep{},
+	/* 21 */ ScanStatic21{}, ScanStatic21Flat{}}
 
 func scanParseTag(tag string) []scanKV {
 	// the conventional format only (static types are hand-written); mirrors reflect.StructTag.Lookup's scanner
@@ -2084,6 +2245,7 @@ func scanGen(rng *hx.Rng, n int, tier string, w *hx.Writer) {
 		}
 		base := g.kids(0, true, true)
 		g.repeatNames(&base, true)
+		scanBlankPass(base)
 		flatKids := scanFlatten(base)
 		flat := scanCase("G", flatKids, nil, nil, []string{"flat"}, w)
 		scanCase("G", base, nil, flat, []string{"base"}, w)
@@ -2163,6 +2325,18 @@ func scanCorpus(w *hx.Writer) {
 		scanCase("G+"+x, sched, nil, sfl, []string{"corpus", "with-extra"}, w)
 		scanCase("G+"+x, deep, nil, flat, []string{"corpus", "with-extra"}, w)
 	}
+	// white space at the edges of tag values: the same units directly on the component and 1 / 2 / 4 embedded levels down
+	lit := func(name, v string) *scanNode { return leaf(name, "s", scanKV{"value", v}) }
+	seps := []*scanNode{
+		job("Gap", " "), lit("Ind", "  "),
+		emb("Fmt", job("Bar", " | ,style=wide"), lit("Arrow", "-> "),
+			emb("Inner", job("Dash", " - ,cron=(0 */5 * * *)"), lit("Lead", " lit"),
+				emb("L3", emb("L4", job("Tab", "\tv\t"), job("Trail", "purge ,zone=UTC"), lit("Pad", " ${s.k1} "))))),
+		job("hiddenGap", " "), leaf("Cnt", "i", scanKV{scanCustomTag, "  ,k=1 2"}),
+	}
+	bfl := scanCase("G", scanFlatten(seps), nil, nil, []string{"corpus", "flat"}, w)
+	scanCase("G", seps, nil, bfl, []string{"corpus", "base"}, w)
+	scanCase("G+fb", seps, nil, bfl, []string{"corpus", "with-extra"}, w)
 	// repeated names: sibling mix-ins with an equally named field; a diamond; a shadowed name
 	dep := func() *scanNode { return leaf("Dep", "pa", scanKV{"wire", ""}) }
 	base := func() *scanNode {
